@@ -126,33 +126,36 @@ func checkC08(c *Ctx, r *Report) {
 	}
 
 	// C08.b write only after success, and write the generated bytes
-	ruleSiteAfterOK(c, r, "C08.b", gout, "os.WriteFile", "generator/swagen.GenerateSpec", -1, "spec file is written only after GenerateSpec returned err == nil")
+	ruleWriteAfterOK(c, r, "C08.b", gout, "generator/swagen.GenerateSpec", "spec file is written only after GenerateSpec returned err == nil")
 	ruleSiteAfterOK(c, r, "C08.b", gout, "os.MkdirAll", "generator/swagen.GenerateSpec", -1, "output directory is created only after GenerateSpec returned err == nil")
 	if fi := need(c, r, "C08.b", gout); fi != nil {
 		viol := ""
 		var sites []string
-		wf := callsIn(fi.SSA, false, nameIs("os.WriteFile"))
-		for _, cl := range wf {
-			sites = append(sites, w.pos(cl.Pos()))
-			data := cl.Common().Args[1]
+		wf := w.fileWritesOf(fi.SSA, 0)
+		for _, fw := range wf {
+			sites = append(sites, w.pos(fw.Site.Pos()))
+			data := stripTrivial(fw.Data)
 			ex, ok := data.(*ssa.Extract)
 			if !ok || ex.Index != 0 {
-				viol = fmt.Sprintf("%s: data written is not result #0 of GenerateSpec", w.pos(cl.Pos()))
+				viol = fmt.Sprintf("%s: data written is not result #0 of GenerateSpec", w.pos(fw.Site.Pos()))
 				continue
 			}
 			call, ok := ex.Tuple.(*ssa.Call)
 			if !ok || calleeName(call) != "generator/swagen.GenerateSpec" {
-				viol = fmt.Sprintf("%s: data written is not result #0 of GenerateSpec", w.pos(cl.Pos()))
+				viol = fmt.Sprintf("%s: data written is not result #0 of GenerateSpec", w.pos(fw.Site.Pos()))
 			}
-			pathAtoms := sliceOf(cl.Common().Args[0])
-			if !pathAtoms.hasFieldNamed("OutputPath") || !pathAtoms.hasFieldNamed("SpecGeneratorConfig") {
-				viol = fmt.Sprintf("%s: path written does not come from config.SpecGeneratorConfig.OutputPath (fields %v)", w.pos(cl.Pos()), pathAtoms.fieldNames())
+			pathAtoms := fw.PathAtoms
+			if !pathAtoms.hasFieldNamed("OutputPath") || !pathAtoms.hasFieldNamed("SpecGeneratorConfig") || len(pathAtoms.Consts) > 0 {
+				viol = fmt.Sprintf("%s: path written is not config.SpecGeneratorConfig.OutputPath itself (fields %v, constants %v)", w.pos(fw.Site.Pos()), pathAtoms.fieldNames(), pathAtoms.Consts)
+			}
+			if !fw.Truncates {
+				viol = fmt.Sprintf("%s: the spec is written with %s without O_TRUNC: regenerating a smaller document over an existing file leaves the new JSON followed by stale bytes - an unparsable spec - while the command succeeds", w.pos(fw.Site.Pos()), fw.Via)
 			}
 		}
 		if len(wf) != 1 {
-			viol = fmt.Sprintf("expected exactly one os.WriteFile in %s, found %d", gout, len(wf))
+			viol = fmt.Sprintf("expected exactly one file write in %s, found %d", gout, len(wf))
 		}
-		r.add("C08.b", "fieldflow", gout+":WriteFile(data,path)", "the bytes written are GenerateSpec's result and the path is SpecGeneratorConfig.OutputPath", []string{gout}, sites, viol)
+		r.add("C08.b", "fieldflow", gout+":WriteFile(data,path)", "the bytes written are GenerateSpec's result, the path is SpecGeneratorConfig.OutputPath and the file is truncated", []string{gout}, sites, viol)
 	}
 	// the only function in swagen* that touches the file system for writing
 	ruleWhoCalls(c, r, "C08.b", func(n string) bool {
